@@ -2135,7 +2135,7 @@ class IndexSignature(BaseSignature):
                 ((not self.name and not other.name) or
                  self.name == other.name) and
                 ((not self.expressions and not other.expressions) or
-                 self.expressions == other.expressions) and
+                 list(self.expressions) == list(other.expressions)) and
                 self.fields == other.fields and
                 dict.__eq__(self.attrs or {}, other.attrs or {}))
 
@@ -2148,7 +2148,10 @@ class IndexSignature(BaseSignature):
             int:
             The hash of the signature.
         """
-        return hash(repr(self))
+        # Expressions are a tuple when coming from an index and a list when
+        # loaded from a stored signature. Both must hash (and compare) alike.
+        return hash(repr((self.name or None, self.fields,
+                          list(self.expressions or []), self.attrs)))
 
     def __repr__(self):
         """Return a string representation of the signature.
